@@ -108,7 +108,7 @@ func Run(r *ev.Run) {
 	deadline := start.Add(budget)
 	fileDeadline := start.Add(budget * 45 / 100)
 
-	r.Rule = "(a) every sequence of body items up to file_len_full over the full item alphabet and up to file_len_core over the core alphabet, each rendered in 3 spacing styles, with the final newline and (below the longest length) without it: token round trip is lossless, Format changes layout only / is idempotent / keeps the tree / keeps the decoded values; " +
+	r.Rule = "(a) every sequence of body items up to file_len_full over the full item alphabet and up to file_len_core over the core alphabet, each rendered in 3 spacing styles (and, up to two items, in a fourth whose every gap is a run of more than 40 blanks), with the final newline and (below the longest length) without it: token round trip is lossless, Format changes layout only / is idempotent / keeps the tree / keeps the decoded values; " +
 		"(b1) every single edit of the edit alphabet applied to every file of (a) of up to sweep_file_len items; (b2) breadth-first search over all edit histories up to edit_depth from each base file, states de-duplicated by output text; every transition runs on real hclwrite objects and on the docmodel, the output is re-parsed natively and compared with the model"
 	r.Bounds["alphabet_full"] = len(full)
 	r.Bounds["alphabet_core"] = len(core)
@@ -368,7 +368,7 @@ func replayFile(r *ev.Run, path string) {
 			os.Exit(2)
 		}
 		var st Style
-		for s := Style(0); s < NStyles; s++ {
+		for s := Style(0); s <= Wide; s++ {
 			if s.String() == parts[0] {
 				st = s
 			}
